@@ -10,10 +10,11 @@
 import TamocV.Real
 import TamocV.Lemmas.Basic
 import TamocV.Lemmas.C07
+import TamocV.Lemmas.C14
 import TamocV.Model.Profile
 
 namespace TamocV.Props.C07
-open TamocV TamocV.Model.Profile TamocV.Lemmas.C07
+open TamocV TamocV.Model.Profile TamocV.Lemmas.C07 TamocV.Lemmas.C14
 
 /-! ## the interpolant -/
 
@@ -174,7 +175,9 @@ theorem get_between (pre : List (List ℝ)) (lo hi : List ℝ) (post : List (Lis
     interp_between pre lo hi post k z hw hs h1 h2]
 
 /-- Querying many depths at once equals querying them one at a time (and the documented shape
-    rule: exactly one depth gives a 1-D answer). -/
+    rule: exactly one depth gives a 1-D answer).  DEFINITIONAL in the model (the model's batch query is a
+    `map`); the content is on the code side and is carried by the harness (batch vs. single calls of the
+    real `get_values`, bit for bit). -/
 theorem batch_eq_map (c : Cache ℝ) (zmin zmax : ℝ) (zs : List ℝ) (names : List String) :
     (zs.length ≠ 1 → getValues c zmin zmax zs names = .mat (zs.map (fun z => getValues1 c zmin zmax z names)))
     ∧ (∀ z, zs = [z] → getValues c zmin zmax zs names = .vec (getValues1 c zmin zmax z names)) := by
@@ -199,7 +202,8 @@ theorem cache_fresh (ρ : ℝ → ℝ → ℝ → ℝ) (zt : Ztsp) (ops : List (
     (run ρ zt p ops).cache = build (run ρ zt p ops).rows (run ρ zt p ops).names :=
   run_fresh ρ zt ops p h
 
-/-- …so after any history a query is answered from the CURRENT table. -/
+/-- …so after any history a query is answered from the CURRENT table (this is what turns the table
+    theorems above into theorems about a profile with a history: see the `…_after_history` theorems). -/
 theorem query_after_history (ρ : ℝ → ℝ → ℝ → ℝ) (zt : Ztsp) (ops : List (Op ℝ)) (p : Profile ℝ)
     (h : p.cache = build p.rows p.names) (z : ℝ) (names : List String) (hnd : names.Nodup) :
     (run ρ zt p ops).get1 z names
@@ -211,7 +215,8 @@ theorem query_after_history (ρ : ℝ → ℝ → ℝ → ℝ) (zt : Ztsp) (ops 
   rfl
 
 /-- A profile as constructed (`_create_profile_from_xarray`: pressure integration, coarsening,
-    stabilisation, then `_build_interpolator`) starts every history with a fresh cache. -/
+    stabilisation, then `_build_interpolator`) starts every history with a fresh cache.
+    DEFINITIONAL in the model (the last line of `construct` is the build). -/
 theorem construct_fresh (ρ : ℝ → ℝ → ℝ → ℝ) (zt : Ztsp) (rows : List (List ℝ)) (names : List String)
     (err : ℝ) (stab : Bool) (p : Profile ℝ) (h : construct ρ zt rows names err stab = some p) :
     p.cache = build p.rows p.names := by
@@ -222,6 +227,158 @@ theorem construct_fresh (ρ : ℝ → ℝ → ℝ → ℝ) (zt : Ztsp) (rows : L
   · simp only [Option.some.injEq] at h
     subst h
     rfl
+
+/-! ## the table theorems for a profile WITH A HISTORY
+
+  `p' = run ops p` is any profile reached from a fresh one by any operations.  The hypotheses about the
+  table `p'` holds (strictly increasing depths, uniform width, z_min / z_max = its first / last depth)
+  are facts about DATA, checked on every real state by the harness (`pred:z-range`, depth order);
+  `Inv` / `inv_run` below discharge them for all histories of applicable operations
+  (`…_after_valid_history`). -/
+
+/-- After any history: at a stored depth the stored values come back. -/
+theorem node_after_history (ρ : ℝ → ℝ → ℝ → ℝ) (zt : Ztsp) (ops : List (Op ℝ)) (p : Profile ℝ)
+    (h : p.cache = build p.rows p.names) (k : Nat) (first last : List ℝ) (mid : List (List ℝ))
+    (hrows : (run ρ zt p ops).rows = first :: (mid ++ [last]))
+    (hw : Width k (first :: (mid ++ [last]))) (hs : StrictInc (first :: (mid ++ [last])))
+    (hzmin : (run ρ zt p ops).zmin = depth first) (hzmax : (run ρ zt p ops).zmax = depth last)
+    (names : List String) (hnd : names.Nodup) (r : List ℝ) (hr : r ∈ first :: (mid ++ [last])) :
+    (run ρ zt p ops).get1 (depth r) names = pick (run ρ zt p ops).names (vals r) names := by
+  unfold Profile.get1
+  rw [cache_fresh ρ zt ops p h, hrows, hzmin, hzmax]
+  exact get_node k first last mid _ names hw hs hnd r hr
+
+/-- After any history: above the shallowest stored depth the first row comes back. -/
+theorem clamp_below_after_history (ρ : ℝ → ℝ → ℝ → ℝ) (zt : Ztsp) (ops : List (Op ℝ)) (p : Profile ℝ)
+    (h : p.cache = build p.rows p.names) (k : Nat) (first last : List ℝ) (mid : List (List ℝ))
+    (hrows : (run ρ zt p ops).rows = first :: (mid ++ [last]))
+    (hw : Width k (first :: (mid ++ [last]))) (hs : StrictInc (first :: (mid ++ [last])))
+    (hzmin : (run ρ zt p ops).zmin = depth first) (hzmax : (run ρ zt p ops).zmax = depth last)
+    (names : List String) (hnd : names.Nodup) (z : ℝ) (hz : z < depth first) :
+    (run ρ zt p ops).get1 z names = pick (run ρ zt p ops).names (vals first) names := by
+  unfold Profile.get1
+  rw [cache_fresh ρ zt ops p h, hrows, hzmin, hzmax]
+  exact clamp_below k first last mid _ names hw hs hnd z hz
+
+/-- After any history: below the deepest stored depth the last row comes back. -/
+theorem clamp_above_after_history (ρ : ℝ → ℝ → ℝ → ℝ) (zt : Ztsp) (ops : List (Op ℝ)) (p : Profile ℝ)
+    (h : p.cache = build p.rows p.names) (k : Nat) (first last : List ℝ) (mid : List (List ℝ))
+    (hrows : (run ρ zt p ops).rows = first :: (mid ++ [last]))
+    (hw : Width k (first :: (mid ++ [last]))) (hs : StrictInc (first :: (mid ++ [last])))
+    (hzmin : (run ρ zt p ops).zmin = depth first) (hzmax : (run ρ zt p ops).zmax = depth last)
+    (names : List String) (hnd : names.Nodup) (z : ℝ) (hz : depth last < z) :
+    (run ρ zt p ops).get1 z names = pick (run ρ zt p ops).names (vals last) names := by
+  unfold Profile.get1
+  rw [cache_fresh ρ zt ops p h, hrows, hzmin, hzmax]
+  exact clamp_above k first last mid _ names hw hs hnd z hz
+
+/-- After any history: between two consecutive stored depths the convex combination comes back. -/
+theorem between_after_history (ρ : ℝ → ℝ → ℝ → ℝ) (zt : Ztsp) (ops : List (Op ℝ)) (p : Profile ℝ)
+    (h : p.cache = build p.rows p.names) (k : Nat) (pre : List (List ℝ)) (lo hi : List ℝ) (post : List (List ℝ))
+    (hrows : (run ρ zt p ops).rows = pre ++ lo :: hi :: post)
+    (hw : Width k (pre ++ lo :: hi :: post)) (hs : StrictInc (pre ++ lo :: hi :: post))
+    (hzmin : (run ρ zt p ops).zmin ≤ depth lo) (hzmax : depth hi ≤ (run ρ zt p ops).zmax)
+    (names : List String) (hnd : names.Nodup) (z : ℝ) (h1 : depth lo ≤ z) (h2 : z ≤ depth hi) :
+    (run ρ zt p ops).get1 z names
+      = pick (run ρ zt p ops).names (List.zipWith (fun yl yh => (1 - (z - depth lo) / (depth hi - depth lo)) * yl
+          + ((z - depth lo) / (depth hi - depth lo)) * yh) (vals lo) (vals hi)) names := by
+  unfold Profile.get1
+  rw [cache_fresh ρ zt ops p h, hrows]
+  exact get_between pre lo hi post k _ names _ _ z hw hs hnd hzmin hzmax h1 h2
+
+/-! ## the invariant, for all histories of applicable operations
+
+  `Inv p`: fresh cache, uniform width = number of names, strictly increasing depths, ≥ 2 rows,
+  z_min / z_max = first / last stored depth.  `RunOk`: every `extend_profile_deeper(z_new)` of the history
+  is performed on a state with `0 ≤ z_max < z_new` (the only operation with a precondition). -/
+
+/-- Every operation, performed as the code performs it, preserves the invariant
+    (append: interpolation onto the stored depths + unit conversion + rebuild; extend: 49 new
+    depths `linspace(z_max, z_new, 50)[1:]`, z_max updated, rebuild; insert_*: one column + rebuild). -/
+theorem inv_step (ρ : ℝ → ℝ → ℝ → ℝ) (zt : Ztsp) (p : Profile ℝ) (hp : Inv p) (op : Op ℝ) (hok : OpOk p op) :
+    Inv (step ρ zt p op) := step_inv ρ zt p hp op hok
+
+/-- …hence every history of applicable operations does. -/
+theorem inv_run (ρ : ℝ → ℝ → ℝ → ℝ) (zt : Ztsp) (ops : List (Op ℝ)) (p : Profile ℝ) (hp : Inv p)
+    (hok : RunOk ρ zt p ops) : Inv (run ρ zt p ops) := by
+  unfold run
+  induction ops generalizing p with
+  | nil => exact hp
+  | cons op ops ih => exact ih _ (step_inv ρ zt p hp op hok.1) hok.2
+
+/-- THE PROPERTY FOR HISTORIES (node): after any history of applicable operations on a well-formed
+    profile, querying at any stored depth returns the stored values of the requested names (in the
+    requested order, 0 for unknown names). -/
+theorem node_after_valid_history (ρ : ℝ → ℝ → ℝ → ℝ) (zt : Ztsp) (ops : List (Op ℝ)) (p : Profile ℝ)
+    (hp : Inv p) (hok : RunOk ρ zt p ops) (names : List String) (hnd : names.Nodup)
+    (r : List ℝ) (hr : r ∈ (run ρ zt p ops).rows) :
+    (run ρ zt p ops).get1 (depth r) names = pick (run ρ zt p ops).names (vals r) names := by
+  have hI := inv_run ρ zt ops p hp hok
+  obtain ⟨k, first, last, mid, hrows, hw, hs, hzmin, hzmax, _⟩ := inv_shape _ hI
+  unfold Profile.get1
+  rw [hI.fresh, hrows, hzmin, hzmax]
+  rw [hrows] at hr
+  exact get_node k first last mid _ names hw hs hnd r hr
+
+/-- THE PROPERTY FOR HISTORIES (clamping): above the shallowest / below the deepest stored depth the
+    first / last stored row is returned. -/
+theorem clamp_after_valid_history (ρ : ℝ → ℝ → ℝ → ℝ) (zt : Ztsp) (ops : List (Op ℝ)) (p : Profile ℝ)
+    (hp : Inv p) (hok : RunOk ρ zt p ops) (names : List String) (hnd : names.Nodup) :
+    ∃ first last mid, (run ρ zt p ops).rows = first :: (mid ++ [last]) ∧
+      (∀ z, z < depth first → (run ρ zt p ops).get1 z names = pick (run ρ zt p ops).names (vals first) names) ∧
+      (∀ z, depth last < z → (run ρ zt p ops).get1 z names = pick (run ρ zt p ops).names (vals last) names) := by
+  have hI := inv_run ρ zt ops p hp hok
+  obtain ⟨k, first, last, mid, hrows, hw, hs, hzmin, hzmax, _⟩ := inv_shape _ hI
+  refine ⟨first, last, mid, hrows, ?_, ?_⟩
+  · intro z hz
+    unfold Profile.get1
+    rw [hI.fresh, hrows, hzmin, hzmax]
+    exact clamp_below k first last mid _ names hw hs hnd z hz
+  · intro z hz
+    unfold Profile.get1
+    rw [hI.fresh, hrows, hzmin, hzmax]
+    exact clamp_above k first last mid _ names hw hs hnd z hz
+
+/-- THE PROPERTY FOR HISTORIES (between): between two consecutive stored depths the convex combination
+    of the neighbouring stored values is returned. -/
+theorem between_after_valid_history (ρ : ℝ → ℝ → ℝ → ℝ) (zt : Ztsp) (ops : List (Op ℝ)) (p : Profile ℝ)
+    (hp : Inv p) (hok : RunOk ρ zt p ops) (names : List String) (hnd : names.Nodup)
+    (pre : List (List ℝ)) (lo hi : List ℝ) (post : List (List ℝ))
+    (hsplit : (run ρ zt p ops).rows = pre ++ lo :: hi :: post) (z : ℝ) (h1 : depth lo ≤ z) (h2 : z ≤ depth hi) :
+    (run ρ zt p ops).get1 z names
+      = pick (run ρ zt p ops).names (List.zipWith (fun yl yh => (1 - (z - depth lo) / (depth hi - depth lo)) * yl
+          + ((z - depth lo) / (depth hi - depth lo)) * yh) (vals lo) (vals hi)) names := by
+  have hI := inv_run ρ zt ops p hp hok
+  obtain ⟨k, first, last, mid, hrows, hw, hs, hzmin, hzmax, _⟩ := inv_shape _ hI
+  have hw' : Width k (pre ++ lo :: hi :: post) := by rw [← hsplit, hrows]; exact hw
+  have hs' : StrictInc (pre ++ lo :: hi :: post) := by rw [← hsplit, hrows]; exact hs
+  have hmemlo : lo ∈ first :: (mid ++ [last]) := by rw [← hrows, hsplit]; simp
+  have hmemhi : hi ∈ first :: (mid ++ [last]) := by rw [← hrows, hsplit]; simp
+  have blo := strictInc_bounds first last mid hs lo hmemlo
+  have bhi := strictInc_bounds first last mid hs hi hmemhi
+  unfold Profile.get1
+  rw [hI.fresh, hsplit]
+  exact get_between pre lo hi post k _ names _ _ z hw' hs' hnd (by rw [hzmin]; exact blo.1) (by rw [hzmax]; exact bhi.2) h1 h2
+
+/-- non-vacuity of `Inv` and `RunOk`: a concrete profile and a history with an extension -/
+example : ∃ (p : Profile ℝ) (ops : List (Op ℝ)), Inv p ∧ RunOk (fun _ _ _ => (1000 : ℝ)) ({} : Ztsp) p ops ∧ ops.length = 2 := by
+  refine ⟨Profile.mk [[0, 290, 34, 101325], [10, 285, 35, 201325], [30, 280, 35.5, 401325]]
+     ["temperature", "salinity", "pressure"] 0 30
+     (build [[0, 290, 34, 101325], [10, 285, 35, 201325], [30, 280, 35.5, 401325]]
+       ["temperature", "salinity", "pressure"]),
+   [.insertPotentialDensity, .extendDeeper 50 36], ?_⟩
+  have hInv : Inv (Profile.mk [[0, 290, 34, 101325], [10, 285, 35, 201325], [30, 280, 35.5, 401325]]
+     ["temperature", "salinity", "pressure"] (0 : ℝ) 30
+     (build [[0, 290, 34, 101325], [10, 285, 35, 201325], [30, 280, 35.5, 401325]]
+       ["temperature", "salinity", "pressure"])) := by
+    refine ⟨rfl, ⟨3, ?_, rfl⟩, ?_, by simp, ?_, ?_⟩
+    · intro r hr; simp at hr; rcases hr with rfl | rfl | rfl <;> rfl
+    · unfold StrictInc depth; simp; norm_num
+    · simp [depth]
+    · simp [depth]
+  refine ⟨hInv, ⟨trivial, ⟨?_, ?_⟩, trivial⟩, rfl⟩
+  · rw [(step_sameGrid _ _ _ hInv Op.insertPotentialDensity (by intro _ _ h; cases h)).zmax]; norm_num
+  · rw [(step_sameGrid _ _ _ hInv Op.insertPotentialDensity (by intro _ _ h; cases h)).zmax]; norm_num
 
 /-- non-vacuity: a concrete fresh profile and a history containing every kind of operation -/
 example : ∃ (p : Profile ℝ) (ops : List (Op ℝ)), p.cache = build p.rows p.names ∧ ops.length = 6 :=
